@@ -2,6 +2,7 @@ package main
 
 import (
 	"fmt"
+	"os"
 	"strings"
 
 	"verifharness/rng"
@@ -405,7 +406,7 @@ func genIR(seed uint64, n int, tier string, emit func(string, []string, any)) {
 		cr := r.Fork()
 		perturb := cr.Chance(1, 5)
 		engines := []string{allEngines[i%5]}
-		if i%10 == 0 {
+		if i%10 == 0 || os.Getenv("VH_ALL_ENGINES") != "" {
 			engines = allEngines
 		}
 		d := genIRDoc(cr, perturb, engines)
